@@ -20,6 +20,9 @@ def WTVal (ty : PType) (v : Bytes) : Prop :=
    | .str => v.length < 2 ^ 31
    | _ => v.length = ty.width)
 
+instance (ty : PType) (v : Bytes) : Decidable (WTVal ty v) := by
+  unfold WTVal; cases ty <;> exact inferInstance
+
 /-- the types whose PLAIN form is the value's bytes (`binary.Write`) -/
 def PType.isFixed (ty : PType) : Prop := ty ≠ .bool ∧ ty ≠ .str
 
@@ -417,10 +420,9 @@ theorem plain_bytes_lt (ty : PType) (vals : List Bytes) (h : ∀ v ∈ vals, WTV
 
 /-! ## non-vacuity -/
 
-example : WTVal .i32 [1, 0, 0, 0] := ⟨by decide, by decide⟩
-example : WTVal .bool [1] ∧ WTVal .bool [0] ∧ ¬ WTVal .bool [2] :=
-  ⟨⟨by decide, by decide⟩, ⟨by decide, by decide⟩, fun h => by have := h.2; revert this; decide⟩
-example : WTVal .str [104, 105] := ⟨by decide, by simp⟩
+example : WTVal .i32 [1, 0, 0, 0] := by decide
+example : WTVal .bool [1] ∧ WTVal .bool [0] ∧ ¬ WTVal .bool [2] := by decide
+example : WTVal .str [104, 105] ∧ ¬ WTVal .str [256] := by decide
 
 /-- ten booleans take two bytes (6 bits of padding), LSB first -/
 example : plainValues .bool [[1], [0], [1], [1], [0], [0], [0], [1], [1], [1]] = [0x8d, 0x03] := by decide
